@@ -105,6 +105,27 @@ Theorem C05_mount_failure_names_the_callers_path : forall m o p e,
 Proof. exact mount_failure_names_the_callers_path. Qed.
 Print Assumptions C05_mount_failure_names_the_callers_path.
 
+(* Rename through a mount FS: whichever route it takes (the constituent's own Rename within one mount, the copy across
+   two mounts) and whichever constituent refuses it, a failed Rename of a non-directory is a LinkError carrying exactly
+   the caller's two names. *)
+Theorem C05_mount_rename_failure_names_the_callers_names : forall m o n e,
+  Forall (fun x => fst x <> [] /\ fst x <> dot) (m_table m) ->
+  (forall q, (fst (fst (mount_point (m_table m) q)) < length (m_fs m))%nat) ->
+  (forall i point sub f, mount_point (m_table m) o = (i, point, sub) ->
+     snd (get_file (fst (kv_stat (fs_at m i) sub)) sub) = inl f -> is_dir (f_mode f) = false) ->
+  snd (m_rename m o n) = VErr e -> exists c, e = LinkErr o n c.
+Proof. exact mount_rename_failure_names_the_callers_names. Qed.
+Print Assumptions C05_mount_rename_failure_names_the_callers_names.
+
+Theorem C05_mount_rename_nonvacuous :
+  let m := fst (mstep (minit [S "a"; S "b"]) (WriteFile (S "a/f") [1;2]%N 420%N)) in
+  Forall (fun x => fst x <> [] /\ fst x <> dot) (m_table m)
+  /\ Forall (fun x => (snd x < length (m_fs m))%nat) (m_table m)
+  /\ snd (m_rename m (S "a/f") (S "b/nodir/g")) = VErr (LinkErr (S "a/f") (S "b/nodir/g") ENOENT)
+  /\ snd (m_rename m (S "a/f") (S "a/nodir/g")) = VErr (LinkErr (S "a/f") (S "a/nodir/g") ENOENT).
+Proof. exact mount_rename_names_demo. Qed.
+Print Assumptions C05_mount_rename_nonvacuous.
+
 (* Rename: an invalid name gives a LinkError carrying both caller names *)
 Theorem C05_rename_invalid_name_is_a_link_error : forall st a b,
   valid_path a = false \/ valid_path b = false ->
